@@ -108,6 +108,9 @@ def run_variant(args):
             if variant['kind'] == 'documented-miss':
                 return dict(id=variant['id'], status='miss',
                             detail=f'documented miss (analysis error: {e})')
+            if variant.get('tolerate_analysis_error'):
+                return dict(id=variant['id'], status='ok',
+                            detail=f'not analysable: {e}')
             if variant['kind'] == 'breaking' and variant.get(
                     'expect') == 'ANALYSIS-ERROR':
                 return dict(id=variant['id'], status='ok',
@@ -172,6 +175,24 @@ def seeded_variants(pid):
     return out
 
 
+def benign_variants(pid):
+    """Behaviour-preserving refactorings written by independent
+    sub-agents (/verif/benign/*): every check must stay silent on them."""
+    import glob
+    out = []
+    root = os.path.join(report.HERE, 'benign')
+    for d in sorted(glob.glob(os.path.join(root, '*'))):
+        pp = os.path.join(d, 'patch.diff')
+        if not (os.path.exists(pp) and os.path.exists(
+                os.path.join(d, 'meta.json'))):
+            continue
+        out.append(dict(id='benign/' + os.path.basename(d), props=[pid],
+                        kind='benign', edits=[], patch=pp, expect=None,
+                        note='refactoring by a sub-agent',
+                        tolerate_analysis_error=True))
+    return out
+
+
 def run(pid, repo, verbose=True, jobs=16):
     from . import variants
     # breaking variants: those aimed at this property; benign variants:
@@ -181,6 +202,8 @@ def run(pid, repo, verbose=True, jobs=16):
     vs = [v for v in variants.VARIANTS
           if pid in v['props'] or (v['kind'] == 'benign' and not cy)]
     vs = vs + seeded_variants(pid)
+    if not cy:
+        vs = vs + benign_variants(pid)
     if not vs:
         print(f'selftest {pid}: no variants')
         return True, dict(variants=0)
